@@ -14,7 +14,8 @@ def history(rng, nops, uni):
     n = len(init)
     for _ in range(nops):
         r = rng.random()
-        if r < 0.30: sc.append("add %d" % rng.randrange(uni)); n += 1
+        if r < 0.04: sc.append("addpanic %d %d" % (rng.randrange(uni), rng.randrange(1, 6))); n += 1   # less panics during the Add (recovered)
+        elif r < 0.30: sc.append("add %d" % rng.randrange(uni)); n += 1
         elif r < 0.50: sc.append("remove %d" % rng.randrange(uni + 2))
         elif r < 0.60: sc.append("removeat %d" % rng.randrange(-1, n + 2))
         elif r < 0.70: sc.append("index %d" % rng.randrange(uni + 1))
@@ -49,5 +50,6 @@ def explore(core, rng, tier, seed, search=False):
     n, nops = (400, 40) if tier == "quick" else (10000, 120)
     scripts = [history(rng, nops, 6 if i % 3 else 12) for i in range(n)]
     scripts += [deep(rng, rng.choice([40, 130, 140, 300] if tier == "quick" else [130, 300, 1100, 5000])) for _ in range(8 if tier == "quick" else 60)]
+    scripts += [deep(rng, n) for n in (1100, 2600)]   # always: past the capacities 1024 / 2048, then drained
     nt = lambda sc: sum(1 for l in sc if l.startswith(("add", "remove"))) >= 4
     return scriptprop.explore(core, ID, scripts, nontrivial=nt)
